@@ -174,7 +174,7 @@ impl<'a> Engine<'a> {
 
 /// C09(b): outcome(p) = outcome(p ⊎ extras) at every open position.
 pub fn run_extras(e: &Engine, rec: &Recorder) {
-    let groups = ["A", "B1", "B2", "B3", "B4", "C2", "D", "E", "G"];
+    let groups = ["A", "B1", "B2", "B3", "B4", "B5", "C2", "D", "E", "G"];
     let roots: Vec<usize> = (0..e.cat.roots.len()).filter(|i| groups.contains(&e.cat.roots[*i].group)).collect();
     let rich = e.tier == Tier::Thorough;
     let max_extras = 2;
